@@ -5,6 +5,7 @@ Cases (all self-contained, see harness/mgrgen.py for the system description):
       MODE  normal | nomaps | latemap | noend | badext | resmismatch | mixedvel
   {"kind": "shipped", "scale": s, "npseed": n, "nmol": n | None}      the BMIM/BF4 box of gaddlemaps/data
   {"kind": "title", "value": str}                                  comment setter + first line written
+  {"kind": "sm", ...}                                              a whole Manager SESSION (state machine), see harness/mgrsm.py
 
 Oracle (on the real code, independent of the model): the written file re-read with the real parser —
 molecules in input-FILE order (ground truth = the generator's description, not `System`), count = sum of
@@ -30,6 +31,7 @@ import numpy as np
 
 from ..common import fbits, hexs, unhexs
 from .. import mgrgen
+from .. import mgrsm
 
 RULE = ("generated systems: 2-5 species drawn from {1-atom, 2-atom (1 or 2 residues), multi-residue 4-8 atoms, "
         "3-7 atom, end-smaller-than-start}, one species without end molecule (p=.7), solvent residues without "
@@ -38,8 +40,13 @@ RULE = ("generated systems: 2-5 species drawn from {1-atom, 2-atom (1 or 2 resid
         "every subset of mapped species given an end molecule, with/without align_molecules (STEPS_FACTOR=20); "
         "pre-flight (no maps / map missing for a late end molecule / no end molecule / unknown output extension) and "
         "mid-write error streams (residue-count mismatch, mixed velocities); the shipped 600-molecule BMIM/BF4 box. "
-        "Non-trivial = a run that writes >= 2 molecules of >= 2 species or exercises an error path; distinct by "
-        "canonical hash of the whole case.")
+        "Manager sessions (kind 'sm', harness/mgrsm.py): one real Manager driven through 6-18 calls of add_end_molecule(s) / "
+        ".end = / calculate_exchange_maps / align_molecules / extrapolate_system (scenarios latemap, ready, re-attach after a "
+        "run, detach + re-attach, run stopping half way, random; good / moved / wrong-species / other-name / other-velocity "
+        "molecules, None, non-molecules, unknown keys, same object again; output path fresh or pre-existing, registered or "
+        "unregistered extension), table + exception class compared with MgrSM.step after every call. "
+        "Non-trivial = a run that writes >= 2 molecules of >= 2 species or exercises an error path (session: >= 4 calls, "
+        ">= 1 exception); distinct by canonical hash of the whole case.")
 
 STRICT_TWO_ATOM = True     # flipped once D7 (C02) is repaired: also compare the along-bond coordinate
 COORD_TOL = 0.5e-3 + 1e-9
@@ -87,6 +94,10 @@ def generate(ctx):
                     desc["species"][k]["aa"]["vel"] = (k % 2 == 0)
             yield {"kind": "extrap", "desc": desc, "mode": mode, "scale": _scale(rng), "align": False,
                    "npseed": rng.randrange(2 ** 31), "ends": mapped}
+    # the Manager OBJECT as a state machine: random sessions of add_end_molecule(s) / .end = / calculate_exchange_maps /
+    # align_molecules / extrapolate_system on one real Manager (harness/mgrsm.py; model GMModel.ManagerSM)
+    for _ in range(ctx.n(200, 4000)):
+        yield mgrsm.gen_case(rng)
     for v in ["abc\n", "abc", "a\n", "\n", "", "  spaced  \n", "two\nlines\n", "x\n\n"]:
         yield {"kind": "title", "value": v}
     yield {"kind": "shipped", "scale": 0.5, "npseed": rng.randrange(2 ** 31), "nmol": None}
@@ -352,6 +363,8 @@ def evaluate(ctx, case):
         return _eval_title(ctx, case)
     if case["kind"] == "shipped":
         return _eval_shipped(ctx, case)
+    if case["kind"] == "sm":
+        return mgrsm.evaluate(ctx, case)
     return _eval_extrap(ctx, case)
 
 
